@@ -127,6 +127,10 @@ type replayer struct {
 	it       db.Iterator
 	itShape  string
 	bufBatch *db.BufferBatch
+
+	// slices handed out by Key()/Value() are retained and must keep their content when the
+	// iterator is repositioned or closed (both are documented / implemented as copies)
+	held [][2][]byte
 }
 
 func (r *replayer) key(i int) []byte { return r.keys[i-1] }
@@ -179,7 +183,27 @@ func okOrErr(err error) result {
 	return result{Kind: "ok"}
 }
 
+func (r *replayer) checkHeld() string {
+	for _, h := range r.held {
+		if !bytes.Equal(h[0], h[1]) {
+			return fmt.Sprintf("a slice returned earlier by Key()/Value() changed from %x to %x", h[1], h[0])
+		}
+	}
+	return ""
+}
+
 func (r *replayer) itRes(valid bool) result {
+	if msg := r.checkHeld(); msg != "" {
+		return result{Kind: "retained:" + msg}
+	}
+	if valid {
+		k := r.it.Key()
+		v, _ := r.it.Value()
+		r.held = append(r.held, [2][]byte{k, bytes.Clone(k)}, [2][]byte{v, bytes.Clone(v)})
+		if len(r.held) > 64 {
+			r.held = r.held[len(r.held)-64:]
+		}
+	}
 	if valid != r.it.Valid() {
 		return result{Kind: fmt.Sprintf("inconsistent: move returned %v, Valid()=%v", valid, r.it.Valid())}
 	}
@@ -373,6 +397,9 @@ func (r *replayer) apply(a action) (res result, skip bool) {
 	case "IterClose":
 		err := r.it.Close()
 		r.it = nil
+		if msg := r.checkHeld(); msg != "" {
+			return result{Kind: "retained:" + msg}, false
+		}
 		return okOrErr(err), false
 	case "Flush":
 		switch impl := r.store.Impl().(type) {
